@@ -302,7 +302,7 @@ func (g *G) genFunc(s *scope, d int, method bool, retF bool) (Func, fsig) {
 func (g *G) genBody(s *scope, d int, n int) []Expr {
 	out := []Expr{}
 	for i := 0; i < n; i++ {
-		switch k := g.r.Intn(14); {
+		switch k := g.r.Intn(15); {
 		case k < 3:
 			out = append(out, Print{g.genA(s, 2)})
 		case k < 5:
@@ -344,6 +344,22 @@ func (g *G) genBody(s *scope, d int, n int) []Expr {
 			g.ctr++
 			out = append(out, Assign{n, ObjLit{[]string{"v", "m"}, []Expr{g.genI(s, 1), m}}})
 			s.def(n, tO, sg)
+		case k == 13 && g.r.Intn(2) == 0:
+			// the same stored object expanded by two calls, the first of which expands a second object as well:
+			// what the first call received must not show up in the second
+			o, f := "kwr"+fmt.Sprint(g.ctr), "show"+fmt.Sprint(g.ctr)
+			g.ctr++
+			out = append(out, Assign{o, ObjLit{[]string{"k"}, []Expr{g.genI(s, 1)}}})
+			out = append(out, Assign{f, Func{Params: []string{"a"}, KwNames: []string{"k", "q"}, KwDefs: []Expr{Int{0}, Int{0}}, Body: []Expr{ArrLit{[]Expr{Var{"a"}, Var{"k"}, Var{"q"}, Var{`\_`}}}}}})
+			extra := ObjLit{[]string{g.pick([]string{"q", "w", "q"})}, []Expr{g.genI(s, 1)}}
+			first := []Arg{{E: g.genI(s, 1)}, {Splat: 2, E: Var{o}}, {Splat: 2, E: extra}}
+			if g.r.Intn(3) == 0 {
+				first = []Arg{{E: g.genI(s, 1)}, {Splat: 2, E: extra}, {Splat: 2, E: Var{o}}}
+			}
+			out = append(out, Print{Call{Var{f}, first}})
+			out = append(out, Print{Call{Var{f}, []Arg{{E: g.genI(s, 1)}, {Splat: 2, E: Var{o}}}}})
+			out = append(out, Print{Var{o}})
+			g.st.dsplat += 3
 		case k == 12 && g.r.Intn(2) == 0:
 			// an object kept in a variable and later expanded with ** (possibly by several calls)
 			n := "kwo" + fmt.Sprint(g.ctr)
